@@ -33,8 +33,12 @@ type Store struct {
 	calls int
 	// FailAt, when > 0, makes the FailAt-th store call (Get, Set, lazy Data, lazy ReadDirNames; 1-based) fail.
 	FailAt int
-	Fired  string // which call failed ("" if none)
-	Log    []string
+	// FailLen: how many consecutive calls fail from FailAt on (0 or 1 = that one call; an outage otherwise).
+	FailLen int
+	// FailedSets counts the Set calls that were failed.
+	FailedSets int
+	Fired      string // which call failed ("" if none)
+	Log        []string
 	// Eager makes Get capture the record's data at Get time (a record then is a snapshot of that instant)
 	// instead of loading it lazily on the first Data() call.
 	Eager bool
@@ -49,8 +53,13 @@ func (s *Store) Calls() int { s.mu.Lock(); defer s.mu.Unlock(); return s.calls }
 func (s *Store) tick(what string) error {
 	s.calls++
 	s.Log = append(s.Log, what)
-	if s.FailAt > 0 && s.calls == s.FailAt {
-		s.Fired = what
+	if n := s.FailLen; s.FailAt > 0 && (s.calls == s.FailAt || (n > 1 && s.calls > s.FailAt && s.calls < s.FailAt+n)) {
+		if s.Fired == "" {
+			s.Fired = what
+		}
+		if strings.HasPrefix(what, "set ") {
+			s.FailedSets++
+		}
 		return ErrInjected
 	}
 	return nil
